@@ -131,6 +131,15 @@ func toBytes(v TV) *sx.T {
 
 func parseType(s string) Type {
 	if strings.HasPrefix(s, "L_") {
+		// make sure the list sort is registered before it is indexed (its element type is looked up by name)
+		switch s {
+		case "L_NB":
+			NeedList(Type{K: KNB})
+		case "L_Any":
+			NeedList(Type{K: KAny})
+		case "L_Int":
+			NeedList(Type{K: KInt})
+		}
 		return Type{K: KList, Name: s}
 	}
 	switch s {
@@ -744,6 +753,15 @@ func (e *Env) call(x *ECall) TV {
 			return TV{Ty: Type{K: KLog}, Log: l}
 		}
 		panic("xcalls(\"method\") needs a constant method name")
+	}
+	if x.Fn == "cur" {
+		// current value of a (reassigned) parameter inside a loop invariant
+		if id, ok := x.Args[0].(*EIdent); ok {
+			if v, ok := e.Vars["$cur."+id.Name]; ok {
+				return v
+			}
+		}
+		return e.Tr(x.Args[0])
 	}
 	if x.Fn == "entry" {
 		if l := e.tryLog(x); l != nil {
